@@ -889,10 +889,12 @@ macro_rules! c15_map_exits {
                         chk!(s, all_once(), "C15.map_.every_element_handed_over_or_dropped_exactly_once");
                     }
                     None => {
-                        // early return / labelled break: the documented behaviour allows a leak,
-                        // never a double drop
+                        // early return / labelled break: a path that runs to completion, so the property's
+                        // "never leaked" applies (the macro's doc warns of a leak; the code drops the consumer
+                        // and the builder on this path, and the property is what is checked)
                         chk!(s, rec.left, "C15.map_.value_produced_only_without_early_exit");
                         chk!(s, none_twice(), "C15.map_.nothing_dropped_twice");
+                        chk!(s, all_once(), "C15.map_.early_exit_drops_every_element_exactly_once");
                     }
                 }
                 cov!(s, !some && rec.done == N - 1, "C15.cover.map_exit_at_last_call");
